@@ -216,3 +216,65 @@ def unmodelled(text):
         if m:
             return m.group(0)
     return None
+
+
+# ------------------------------------------------------------------------------------------------ lengths of covered runs
+def _split_items(text):
+    """Top-level, space separated item texts of a rendered item list."""
+    out, d, cur, q = [], 0, '', None
+    for ch in text:
+        if q is not None:
+            cur += ch
+            if ch == q:
+                q = None
+            continue
+        if ch in '\'"':
+            q = ch
+        elif ch in '([{':
+            d += 1
+        elif ch in ')]}':
+            d -= 1
+        if ch == ' ' and d == 0:
+            if cur:
+                out.append(cur)
+            cur = ''
+        else:
+            cur += ch
+    if cur:
+        out.append(cur)
+    return out
+
+
+def length_normal(text):
+    """Integer-linear normal form ({atom: coefficient}, constant) of a length expression in which every `len(<run of items>)` is
+    the sum of the lengths of the items of the run: a single octet (BYTE) is 1, a constant its number of octets, any other item x
+    the atom len(x).  `len(a b) + len(c)`, `len(c) + len(a) + len(b)` and `len(a b c)` have the same normal form; for
+    a = BYTE BYTE BYTE BYTE it is 4 + ...; leaving an item out or counting one twice changes it."""
+    import re as _re
+    from .interp import lin_parse
+    terms, const = lin_parse(text)
+    out = {}
+    for atom, k in terms.items():
+        m = _re.match(r'^len\((.*)\)$', atom)
+        inner = m.group(1) if m else None
+        if inner is None or inner.count('(') != inner.count(')'):
+            out[atom] = out.get(atom, 0) + k
+            continue
+        for piece in _split_items(inner):
+            mc = _re.match(r'^C\(([0-9a-f]*)\)$', piece)
+            if piece.startswith('BYTE(') and piece.endswith(')'):
+                const += k
+            elif mc:
+                const += k * (len(mc.group(1)) // 2)
+            else:
+                a = 'len(%s)' % piece
+                out[a] = out.get(a, 0) + k
+    return {a: k for a, k in out.items() if k != 0}, const
+
+
+def length_covers_run(text, items):
+    """Does the length expression `text` denote exactly the number of octets of the run `items` (each item once)?"""
+    try:
+        return length_normal(text) == length_normal('len(%s)' % render_items(items))
+    except Exception:
+        return False
